@@ -570,11 +570,16 @@ class Worker:
 
         # Cancel any open tasks
         for mailbox_id in list(self._active_task.owned_mailboxes):
+            box = self._mailboxes.get(mailbox_id)
+
+            # A cancel of this task handled meanwhile already dropped it
+            if box is None:
+                continue
+
             # If task is complete, simply discard result
-            if mailbox_id in self._mailboxes:
-                if self._mailboxes[mailbox_id].ready:
-                    self._mailboxes.pop(mailbox_id)
-                    continue
+            if box.ready:
+                self._mailboxes.pop(mailbox_id, None)
+                continue
 
             # Otherwise send a cancel message
             self.cancel(RuntimeFuture(mailbox_id))
@@ -755,9 +760,14 @@ class Worker:
     def cancel(self, future: RuntimeFuture) -> None:
         """Cancel all tasks associated with `future`."""
         assert self._active_task is not None
-        num_slots = self._mailboxes[future.mailbox_id].expected_num_results
+        box = self._mailboxes.pop(future.mailbox_id, None)
+
+        if box is None:
+            # Already cancelled, possibly with the calling task itself
+            raise RuntimeError('Cannot cancel a canceled task.')
+
+        num_slots = box.expected_num_results
         self._active_task.owned_mailboxes.remove(future.mailbox_id)
-        self._mailboxes.pop(future.mailbox_id)
         addrs = [
             RuntimeAddress(self._id, future.mailbox_id, slot_id)
             for slot_id in range(num_slots)
